@@ -21,6 +21,7 @@ import (
 	"github.com/logrange/logrange/pkg/lql"
 	"github.com/logrange/logrange/pkg/model/tag"
 	journal2 "github.com/logrange/logrange/pkg/partition"
+	"github.com/logrange/logrange/pkg/utils/verifhook"
 	"github.com/logrange/range/pkg/records/journal"
 	errors2 "github.com/logrange/range/pkg/utils/errors"
 	"github.com/pkg/errors"
@@ -159,6 +160,7 @@ func (pp *ppipe) delete() {
 	pp.deleted = true
 	pp.lock.Unlock()
 	pp.cancelF()
+	verifhook.At("pipe.delete.beforeRemove")
 	pp.svc.psr.onDeleteStream(pp.cfg.Name)
 }
 
